@@ -252,6 +252,7 @@ TCodec ==
   /\ IsEvent("Codec") /\ Advance /\ Keep /\ UNCHANGED shas
   /\ Verdict(IF ~Ev.decoded THEN "the independent decoder rejects the encoded text"
              ELSE IF Ev.docs # <<Ev.value>> THEN "the encoded text does not decode to the encoded value"
+             ELSE IF "consistent" \in DOMAIN Ev /\ ~Ev.consistent THEN "the JSON encoders (json, json-pretty, jsonl) do not write the same tokens for the same value"
              ELSE "")
 
 (* C05: an evaluated stream written in a format (library Output*, bkl -f,   *)
